@@ -58,23 +58,31 @@ func (c *packetConn[A]) LocalAddr() net.Addr {
 func (c *packetConn[A]) SetDeadline(t time.Time) error {
 	c.mu.Lock()
 	defer c.mu.Unlock()
-	c.readDeadline = &t
-	c.writeDeadline = &t
+	c.readDeadline = deadlineOrNil(t)
+	c.writeDeadline = deadlineOrNil(t)
 	return nil
 }
 
 func (c *packetConn[A]) SetReadDeadline(t time.Time) error {
 	c.mu.Lock()
 	defer c.mu.Unlock()
-	c.readDeadline = &t
+	c.readDeadline = deadlineOrNil(t)
 	return nil
 }
 
 func (c *packetConn[A]) SetWriteDeadline(t time.Time) error {
 	c.mu.Lock()
 	defer c.mu.Unlock()
-	c.writeDeadline = &t
+	c.writeDeadline = deadlineOrNil(t)
 	return nil
+}
+
+// deadlineOrNil maps the zero time to "no deadline", as net.PacketConn requires.
+func deadlineOrNil(t time.Time) *time.Time {
+	if t.IsZero() {
+		return nil
+	}
+	return &t
 }
 
 func (c *packetConn[A]) getReadContext() (context.Context, context.CancelFunc) {
